@@ -1,10 +1,399 @@
-(* C03 — placeholder while the proofs are being written: a computed sanity
-   example only.  The theorems of DESIGN.md section 4 C03 replace this file. *)
-From Moc Require Import Base Match Cache CacheSpec.
+(* C03 — In-memory store: each query equals the filter spec over the retained
+   set; the answer does not depend on the access path.
+
+   Statements only; each is closed by [exact] of a lemma proved in
+   CacheFindFacts.v / CacheFindProofs.v and followed by Print Assumptions.
+
+   Standing hypotheses.
+   * [Inv s]: the representation invariant of CacheInv.v (every state reached
+     by a history with functional ids satisfies it — proved in the invariant
+     files, not here).
+   * [filter_ok f]: the tag map is nil, or non-empty with single-letter names
+     — what ParseReqFilter produces ("#x" keys, stored as k[1:2]).  Both
+     restrictions are necessary: see [C03_empty_tag_map_panics] and
+     [C03_long_tag_name_paths_differ] below.
+   * No hypothesis on limits: a limit <= 0 returns nothing on both paths
+     ([Z.to_nat] of a non-positive number is 0).
+   * [c_find] needs no hypothesis on the events' tags: the cache calls Match
+     only with filters without a tag map.  The comparison with the ordered
+     scan under the *full* matcher (C03_paths_agree) needs events without
+     empty tags and distinct tag-map keys ([filter_wf]), as in C02. *)
+From Coq Require Import List ZArith Permutation Sorted.
+From Moc Require Import Base Match MatchProofs Cache CacheSpec CacheInv CacheFindFacts CacheFindProofs.
+From Moc.Gen Require Import GenCache.
+Import ListNotations.
 Open Scope Z_scope.
 
-Example C03_sanity :
-  let e1 := mkEvent [1]%N [9]%N 3 1 [] [] [] in
-  let e2 := mkEvent [2]%N [9]%N 4 1 [] [] [] in
-  c_listing (c_run 1 [e1; e2]) = [e2].
-Proof. vm_compute. reflexivity. Qed.
+(* ------------------------------------------------------------------ *)
+(** * Guards used by the query path (one characterising lemma each) *)
+
+Theorem C03_guard_created_key_lt : forall ats aid bts bid,
+  g_created_key_lt ats aid bts bid = true <->
+  (bts < ats \/ (bts = ats /\ str_ltb bid aid = true)).
+Proof. exact g_created_key_lt_spec. Qed.
+Print Assumptions C03_guard_created_key_lt.
+
+Theorem C03_guard_index_over_limit : forall c l, g_index_over_limit c l = true <-> l < c.
+Proof. exact g_index_over_limit_spec. Qed.
+Print Assumptions C03_guard_index_over_limit.
+
+Theorem C03_guard_full_scan : forall i a k t,
+  g_full_scan i a k t = true <-> i = false /\ a = false /\ k = false /\ t = false.
+Proof. exact g_full_scan_spec. Qed.
+Print Assumptions C03_guard_full_scan.
+
+(** the tree comparison is a strict total order on (created_at, id) that
+    refines non-increasing created_at *)
+Theorem C03_tree_order : forall a b c,
+  tkey_lt a a = false /\
+  (tkey_lt a b = true -> tkey_lt b c = true -> tkey_lt a c = true) /\
+  (tkey_lt a b = false -> tkey_lt b a = false -> ev_ts a = ev_ts b /\ ev_id a = ev_id b) /\
+  (tkey_lt a b = true -> ev_ts b <= ev_ts a).
+Proof. exact tkey_order. Qed.
+Print Assumptions C03_tree_order.
+
+(* ------------------------------------------------------------------ *)
+(** * 1. [tree_set] is an order-preserving set insertion; the insertion order
+        is irrelevant.  [keys_functional l]: the events of [l] have pairwise
+        distinct (created_at, id) keys (two with the same key are equal);
+        implied by functional ids, hence by [Inv] for the retained events. *)
+
+Theorem C03_keys_functional_from_ids : forall l, ids_functional l -> keys_functional l.
+Proof. exact idsf_keyf. Qed.
+Print Assumptions C03_keys_functional_from_ids.
+
+Theorem C03_retained_keys_functional : forall s, Inv s -> keys_functional (c_tree s).
+Proof. exact inv_tree_keyf. Qed.
+Print Assumptions C03_retained_keys_functional.
+
+Theorem C03_tree_set_sorted : forall e t,
+  StronglySorted (fun a b => tkey_lt a b = true) t ->
+  StronglySorted (fun a b => tkey_lt a b = true) (tree_set e t).
+Proof. exact tree_set_sorted. Qed.
+Print Assumptions C03_tree_set_sorted.
+
+Theorem C03_tree_set_is_set_insertion : forall e t y,
+  keys_functional (e :: t) -> (In y (tree_set e t) <-> y = e \/ In y t).
+Proof. exact tree_set_set_insert. Qed.
+Print Assumptions C03_tree_set_is_set_insertion.
+
+Theorem C03_tree_set_commutes : forall a b t,
+  keys_functional (a :: b :: t) ->
+  StronglySorted (fun x y => tkey_lt x y = true) t ->
+  tree_set a (tree_set b t) = tree_set b (tree_set a t).
+Proof. exact tree_set_comm. Qed.
+Print Assumptions C03_tree_set_commutes.
+
+(** inserting a list in any order into a sorted tree gives the same sorted
+    tree, whose elements are the union *)
+Theorem C03_insertion_order_irrelevant : forall l l' acc,
+  keys_functional (l ++ acc) ->
+  StronglySorted (fun x y => tkey_lt x y = true) acc ->
+  Permutation l l' ->
+  fold_left (fun a x => tree_set x a) l acc = fold_left (fun a x => tree_set x a) l' acc /\
+  StronglySorted (fun x y => tkey_lt x y = true) (fold_left (fun a x => tree_set x a) l acc) /\
+  (forall y, In y (fold_left (fun a x => tree_set x a) l acc) <-> In y l \/ In y acc).
+Proof. exact insertion_order_irrelevant. Qed.
+Print Assumptions C03_insertion_order_irrelevant.
+
+(** sorted lists are canonical: same elements, same list *)
+Theorem C03_sorted_lists_canonical : forall l1 l2,
+  StronglySorted (fun x y => tkey_lt x y = true) l1 ->
+  StronglySorted (fun x y => tkey_lt x y = true) l2 ->
+  (forall x, In x l1 <-> In x l2) -> l1 = l2.
+Proof. exact tsorted_ext. Qed.
+Print Assumptions C03_sorted_lists_canonical.
+
+(* ------------------------------------------------------------------ *)
+(** * 2. The scan path: a top-n set *)
+
+(** a full-scan filter yields the first [limit] elements of the tree that
+    satisfy since/until (all of them without a limit) *)
+Theorem C03_scan_topn : forall s f,
+  Inv s ->
+  g_full_scan (isSome (f_ids f)) (isSome (f_authors f)) (isSome (f_kinds f)) (isSome (f_tags f)) = true ->
+  scan_loop (c_tree s) (lm_new f) [] =
+  Ok (take_limit (f_limit f) (filter (fun x => match_specb x (time_only f)) (c_tree s))).
+Proof. exact scan_full_topn'. Qed.
+Print Assumptions C03_scan_topn.
+
+(** ... and, run against an accumulated tree, it adds exactly those *)
+Theorem C03_scan_adds_topn : forall s f acc,
+  Inv s ->
+  g_full_scan (isSome (f_ids f)) (isSome (f_authors f)) (isSome (f_kinds f)) (isSome (f_tags f)) = true ->
+  scan_loop (c_tree s) (lm_new f) acc =
+  Ok (fold_left (fun a x => tree_set x a)
+                (take_limit (f_limit f) (filter (fun x => match_specb x f) (c_tree s))) acc).
+Proof. exact scan_full_acc. Qed.
+Print Assumptions C03_scan_adds_topn.
+
+(* ------------------------------------------------------------------ *)
+(** * 3. The index path *)
+
+(** the union of the index entries of one condition: the retained events
+    having one of its keys *)
+Theorem C03_idx_union_is_key_set : forall s, Inv s -> forall keys e,
+  In e (idx_union (c_idx s) keys) <->
+  In e (retained s) /\ exists k, In k keys /\ has_ikey k e = true.
+Proof. exact idx_union_spec. Qed.
+Print Assumptions C03_idx_union_is_key_set.
+
+Theorem C03_sort_by_len_permutes : forall l, Permutation (sort_by_len l) l.
+Proof. exact sort_by_len_perm. Qed.
+Print Assumptions C03_sort_by_len_permutes.
+
+(** the successive intersection of the condition sets taken in ANY order is
+    the set of retained events satisfying ids, authors, kinds and every tag
+    condition (the filter without since/until/limit) *)
+Theorem C03_intersection_any_order : forall s, Inv s -> forall f sets c,
+  filter_ok f ->
+  g_full_scan (isSome (f_ids f)) (isSome (f_authors f)) (isSome (f_kinds f)) (isSome (f_tags f)) = false ->
+  Permutation sets (map (idx_union (c_idx s)) (ikeys_of_filter f)) ->
+  inter_all sets = Some c ->
+  NoDup c /\ forall e, In e c <-> In e (retained s) /\ match_specb e (strip_time f) = true.
+Proof. exact index_cands_any_order. Qed.
+Print Assumptions C03_intersection_any_order.
+
+(** bounded insertion of a duplicate-free candidate list: the top-[limit]
+    (in tree order) of the candidates passing since/until ... *)
+Theorem C03_bounded_insert_topn : forall s, Inv s -> forall f limit cands,
+  NoDup cands -> incl cands (c_tree s) ->
+  bounded_insert cands (time_only f) limit [] 0 =
+  Ok (firstn (Z.to_nat limit)
+             (filter (fun y => eset_mem y cands && match_specb y (time_only f)) (c_tree s))).
+Proof. exact bounded_insert_topn. Qed.
+Print Assumptions C03_bounded_insert_topn.
+
+(** ... hence the same for EVERY enumeration order of the candidates: Go's
+    random map iteration is unobservable *)
+Theorem C03_bounded_insert_order_irrelevant : forall s, Inv s -> forall f limit cands cands',
+  NoDup cands -> incl cands (c_tree s) -> Permutation cands cands' ->
+  bounded_insert cands' (time_only f) limit [] 0 = bounded_insert cands (time_only f) limit [] 0.
+Proof. exact bounded_insert_order_irrelevant. Qed.
+Print Assumptions C03_bounded_insert_order_irrelevant.
+
+(** the index path as a whole *)
+Theorem C03_index_path_result : forall s f,
+  Inv s -> filter_ok f ->
+  g_full_scan (isSome (f_ids f)) (isSome (f_authors f)) (isSome (f_kinds f)) (isSome (f_tags f)) = false ->
+  idx_find (c_idx s) f =
+  Some (Ok (take_limit (f_limit f) (filter (fun x => match_specb x f) (c_tree s)))).
+Proof. exact index_path_result. Qed.
+Print Assumptions C03_index_path_result.
+
+(** ... with the condition sets intersected in any order and the candidates
+    enumerated in any order *)
+Theorem C03_index_path_any_enumeration : forall s f sets c c' limit,
+  Inv s -> filter_ok f ->
+  g_full_scan (isSome (f_ids f)) (isSome (f_authors f)) (isSome (f_kinds f)) (isSome (f_tags f)) = false ->
+  Permutation sets (map (idx_union (c_idx s)) (ikeys_of_filter f)) ->
+  inter_all sets = Some c -> Permutation c c' ->
+  limit = match f_limit f with
+          | Some l => Z.min (Z.of_nat (length c')) l
+          | None => Z.of_nat (length c')
+          end ->
+  Some (bounded_insert c' (time_only f) limit [] 0) = idx_find (c_idx s) f.
+Proof. exact index_path_any_enumeration. Qed.
+Print Assumptions C03_index_path_any_enumeration.
+
+(** what either path returns for one filter is a top-[limit] set of the
+    matching retained events: duplicate-free, inside the matches, of size
+    min(limit, #matches), every chosen one at least as new as every unchosen
+    match *)
+Theorem C03_filter_share_is_topn : forall s f, Inv s ->
+  topn (c_tree s) f (take_limit (f_limit f) (filter (fun x => match_specb x f) (c_tree s))).
+Proof. exact filter_share_topn. Qed.
+Print Assumptions C03_filter_share_is_topn.
+
+(* ------------------------------------------------------------------ *)
+(** * 4. The two access paths agree *)
+
+Theorem C03_paths_agree : forall s, Inv s -> forall f r,
+  filter_ok f -> filter_wf f -> (forall x, In x (retained s) -> tags_nonempty x) ->
+  idx_find (c_idx s) f = Some (Ok r) ->
+  scan_loop (c_tree s) (lm_new f) [] = Ok r.
+Proof. exact paths_agree. Qed.
+Print Assumptions C03_paths_agree.
+
+(** also inside [find_loop]: serving the filter by the scan instead of the
+    index leaves the same accumulated tree *)
+Theorem C03_paths_agree_acc : forall s, Inv s -> forall f r acc,
+  filter_ok f -> filter_wf f -> (forall x, In x (retained s) -> tags_nonempty x) ->
+  idx_find (c_idx s) f = Some (Ok r) ->
+  scan_loop (c_tree s) (lm_new f) acc = Ok (fold_left (fun a x => tree_set x a) r acc).
+Proof. exact paths_agree_acc. Qed.
+Print Assumptions C03_paths_agree_acc.
+
+(* ------------------------------------------------------------------ *)
+(** * 5. Find *)
+
+Theorem C03_listing_is_retained : forall s, Inv s -> c_listing s = c_tree s.
+Proof. exact listing_is_retained. Qed.
+Print Assumptions C03_listing_is_retained.
+
+(** closed form: the elements of the tree that belong to some filter's
+    first-[limit] matches, in tree order *)
+Theorem C03_find_closed_form : forall s, Inv s -> forall fs,
+  Forall filter_ok fs ->
+  c_find s fs =
+  Ok (filter (fun x => existsb (fun f =>
+                eset_mem x (take_limit (f_limit f) (filter (fun y => match_specb y f) (c_tree s)))) fs)
+             (c_tree s)).
+Proof. exact c_find_closed_form. Qed.
+Print Assumptions C03_find_closed_form.
+
+Theorem C03_find_total : forall s, Inv s -> forall fs,
+  Forall filter_ok fs -> c_find s fs <> Panic.
+Proof. exact find_total. Qed.
+Print Assumptions C03_find_total.
+
+(** the answer passes the oracle of the correspondence check, judged against
+    the match-everything listing *)
+Theorem C03_find_correct : forall s, Inv s -> forall fs out,
+  Forall filter_ok fs -> c_find s fs = Ok out ->
+  find_spec_ok (c_listing s) fs out = true.
+Proof. exact find_correct. Qed.
+Print Assumptions C03_find_correct.
+
+(** the property text, declaratively: no duplicates, non-increasing
+    created_at, and the union over the filters of a top-limit subset of the
+    matching retained events ([topn]: duplicate-free, inside the matches, of
+    size min(limit, #matches), every chosen one at least as new as every
+    unchosen match) *)
+Theorem C03_find_correct_declarative : forall s, Inv s -> forall fs out,
+  Forall filter_ok fs -> c_find s fs = Ok out ->
+  NoDup (map ev_id out) /\
+  StronglySorted (fun a b => ev_ts b <= ev_ts a) out /\
+  exists rs,
+    Forall2 (fun f r =>
+      NoDup r /\
+      (forall x, In x r -> In x (c_listing s) /\ match_spec x f) /\
+      length r = (let m := length (filter (fun x => match_specb x f) (c_listing s)) in
+                  match f_limit f with Some l => Nat.min (Z.to_nat l) m | None => m end) /\
+      (forall x y, In x r -> In y (c_listing s) -> match_spec y f -> ~ In y r -> ev_ts y <= ev_ts x))
+      fs rs /\
+    forall x, In x out <-> exists r, In r rs /\ In x r.
+Proof. exact find_correct_decl. Qed.
+Print Assumptions C03_find_correct_declarative.
+
+(** the oracle itself is sound for the declarative reading, for ANY listing
+    without duplicate ids (sorted or not): this is what its verdict on the
+    implementation's own answers means in the correspondence check *)
+Theorem C03_oracle_sound : forall R fs out,
+  nodup_ids R = true -> find_spec_ok R fs out = true ->
+  NoDup (map ev_id out) /\
+  StronglySorted (fun a b => ev_ts b <= ev_ts a) out /\
+  exists rs, Forall2 (topn R) fs rs /\ forall x, In x out <-> exists r, In r rs /\ In x r.
+Proof. exact find_spec_ok_sound. Qed.
+Print Assumptions C03_oracle_sound.
+
+(* ------------------------------------------------------------------ *)
+(** * The hypotheses on filters are necessary *)
+
+(** an empty non-nil tag map (which the decoder cannot produce) panics *)
+Theorem C03_empty_tag_map_panics :
+  exists s f, f_tags f = Some [] /\ c_find s [f] = Panic.
+Proof.
+  exists Ex.s0, (mkFilter None None None (Some []) None None None).
+  split; [reflexivity | vm_compute; reflexivity].
+Qed.
+Print Assumptions C03_empty_tag_map_panics.
+
+(** a tag name that is not a single letter (which the decoder cannot produce)
+    is served differently by the two paths: the index stores single-letter
+    names only *)
+Theorem C03_long_tag_name_paths_differ :
+  exists s f r r',
+    filter_wf f /\ (forall x, In x (retained s) -> tags_nonempty x) /\
+    idx_find (c_idx s) f = Some (Ok r) /\
+    scan_loop (c_tree s) (lm_new f) [] = Ok r' /\ r <> r'.
+Proof.
+  pose (tt := [116; 116]%N : str).
+  pose (e := mkEvent [1]%N [2]%N 3 1 [[tt; [120]%N]] [] []).
+  exists (c_run 10 [e]), (mkFilter None None None (Some [(tt, [[120]%N])]) None None None), [], [e].
+  split; [repeat constructor; intros []|].
+  split.
+  - intros x [<-|[]]. repeat constructor. discriminate.
+  - split; [vm_compute; reflexivity|]. split; [vm_compute; reflexivity | discriminate].
+Qed.
+Print Assumptions C03_long_tag_name_paths_differ.
+
+(* ------------------------------------------------------------------ *)
+(** * Non-vacuity: a concrete state (7 insertions: one replacement, one
+      deletion request; 5 retained), a selective filter served by the index
+      ({"#t":["x"], since 2, limit 1}), a non-selective one served by the scan
+      ({since 2, until 5, limit 3}) and an authors+kinds filter *)
+
+Definition ex_ids (l : list event) : list str := map ev_id l.
+
+Example C03_ex_listing :
+  ex_ids (c_listing Ex.s0) = ex_ids [Ex.c1; Ex.a3; Ex.b3; Ex.b1; Ex.a2] /\
+  c_listing Ex.s0 = c_tree Ex.s0 /\
+  StronglySorted (fun a b => tkey_lt a b = true) (c_tree Ex.s0).
+Proof.
+  split; [vm_compute; reflexivity|]. split; [vm_compute; reflexivity|].
+  vm_compute. repeat constructor.
+Qed.
+
+Example C03_ex_filters_ok :
+  Forall filter_ok [Ex.fsel; Ex.fnon; Ex.fauth] /\ Forall filter_wf [Ex.fsel; Ex.fnon; Ex.fauth] /\
+  Forall tags_nonempty (retained Ex.s0).
+Proof.
+  split; [|split].
+  - repeat constructor. discriminate.
+  - repeat constructor. intros [].
+  - vm_compute. repeat constructor; discriminate.
+Qed.
+
+(** item 1 on concrete events *)
+Example C03_ex_tree_set :
+  tree_set Ex.b1 (tree_set Ex.c1 [Ex.a3; Ex.a2]) = tree_set Ex.c1 (tree_set Ex.b1 [Ex.a3; Ex.a2]) /\
+  tree_set Ex.b1 (tree_set Ex.c1 [Ex.a3; Ex.a2]) = [Ex.c1; Ex.a3; Ex.b1; Ex.a2].
+Proof. split; vm_compute; reflexivity. Qed.
+
+(** item 2: the scan path *)
+Example C03_ex_scan :
+  scan_loop (c_tree Ex.s0) (lm_new Ex.fnon) [] = Ok [Ex.c1; Ex.a3; Ex.b3] /\
+  take_limit (f_limit Ex.fnon) (filter (fun x => match_specb x (time_only Ex.fnon)) (c_tree Ex.s0))
+    = [Ex.c1; Ex.a3; Ex.b3].
+Proof. split; vm_compute; reflexivity. Qed.
+
+(** item 3: unions, intersection in both orders, bounded insertion in two
+    enumeration orders *)
+Example C03_ex_index :
+  map ex_ids (map (idx_union (c_idx Ex.s0)) (ikeys_of_filter Ex.fauth)) =
+    [ex_ids [Ex.a2; Ex.a3; Ex.b1; Ex.b3]; ex_ids [Ex.a2; Ex.b1; Ex.c1; Ex.b3]] /\
+  (let sets := map (idx_union (c_idx Ex.s0)) (ikeys_of_filter Ex.fauth) in
+   option_map ex_ids (inter_all sets) = Some (ex_ids [Ex.a2; Ex.b1; Ex.b3]) /\
+   option_map ex_ids (inter_all (rev sets)) = Some (ex_ids [Ex.a2; Ex.b1; Ex.b3])) /\
+  bounded_insert [Ex.a2; Ex.b1; Ex.b3; Ex.c1] (time_only Ex.fsel) 2 [] 0 = Ok [Ex.c1; Ex.b3] /\
+  bounded_insert [Ex.c1; Ex.b3; Ex.b1; Ex.a2] (time_only Ex.fsel) 2 [] 0 = Ok [Ex.c1; Ex.b3] /\
+  idx_find (c_idx Ex.s0) Ex.fsel = Some (Ok [Ex.c1]).
+Proof. repeat split; vm_compute; reflexivity. Qed.
+
+(** item 4: both paths on the index-served filters *)
+Example C03_ex_paths_agree :
+  idx_find (c_idx Ex.s0) Ex.fsel = Some (Ok [Ex.c1]) /\
+  scan_loop (c_tree Ex.s0) (lm_new Ex.fsel) [] = Ok [Ex.c1] /\
+  idx_find (c_idx Ex.s0) Ex.fauth = Some (Ok [Ex.b3; Ex.b1; Ex.a2]) /\
+  scan_loop (c_tree Ex.s0) (lm_new Ex.fauth) [] = Ok [Ex.b3; Ex.b1; Ex.a2].
+Proof. repeat split; vm_compute; reflexivity. Qed.
+
+(** item 5: a two-filter query (overlapping answers, smaller than the
+    retained set) passes the oracle; a wrong answer does not *)
+Example C03_ex_find :
+  c_find Ex.s0 [Ex.fsel; Ex.fnon] = Ok [Ex.c1; Ex.a3; Ex.b3] /\
+  find_spec_ok (c_listing Ex.s0) [Ex.fsel; Ex.fnon] [Ex.c1; Ex.a3; Ex.b3] = true /\
+  find_spec_ok (c_listing Ex.s0) [Ex.fsel; Ex.fnon] [Ex.c1; Ex.a3; Ex.b1] = false /\
+  find_spec_ok (c_listing Ex.s0) [Ex.fsel; Ex.fnon] [Ex.c1; Ex.a3] = false /\
+  c_find Ex.s0 [Ex.fsel; Ex.fnon; Ex.fauth] = Ok (c_tree Ex.s0).
+Proof. repeat split; vm_compute; reflexivity. Qed.
+
+(** the oracle's hypotheses hold of the concrete listing, and it separates
+    right from wrong answers there *)
+Example C03_ex_oracle :
+  nodup_ids (c_listing Ex.s0) = true /\
+  find_spec_ok (c_listing Ex.s0) [Ex.fsel; Ex.fnon] [Ex.c1; Ex.a3; Ex.b3] = true /\
+  find_spec_ok (c_listing Ex.s0) [Ex.fsel; Ex.fnon] [Ex.a3; Ex.c1; Ex.b3] = true /\
+  find_spec_ok (c_listing Ex.s0) [Ex.fsel; Ex.fnon] [Ex.c1; Ex.c1; Ex.a3; Ex.b3] = false.
+Proof. repeat split; vm_compute; reflexivity. Qed.
